@@ -578,7 +578,10 @@ class Client:
             self.sock.settimeout(Client.read_timeout)
         except socket.error as msg:
             raise Error("Connection to server failed: %s" % str(msg))
+        # nothing recorded for a previous connection applies to this one
         self.authenticated = False
+        self.__capabilities = {}
+        self.__read_buffer = b""
 
         if not self.__get_capabilities():
             raise Error("Failed to read capabilities from server")
